@@ -691,7 +691,9 @@ RecvSettings(ep, f) ==
                         dropped == ht # None /\ ht[1][3] = d.ep.enc.size /\ d.ep.enc.rz
                         e2a == [d.ep EXCEPT !.mof = IF mf = None THEN @ ELSE mf[1][3],
                                             !.enc = IF ht = None THEN @ ELSE EncSet(@, ht[1][3])]
-                        e2 == IF dropped THEN Mark(e2a, "hpack_size_update_dropped") ELSE e2a
+                        \* (from here on the encoder works with a table size the peer's decoder was never told: what its blocks
+                        \* decode to at the peer depends on the tables' contents, which the specification does not model)
+                        e2 == IF dropped THEN Dirty(Mark(e2a, "hpack_size_update_dropped")) ELSE e2a
                     IN IF ~d.ok THEN RR(d.ep, FCE, <<>>)
                        ELSE RR(Emit(e2, <<FSettingsAck>>), OK, <<ev>>)
 
